@@ -173,6 +173,10 @@ class BeltStore(Store):
 
         """
         # Check if there's enough space to reserve
+        # One item enters the belt at a time: while a granted space reservation is still unused no further
+        # one is granted, otherwise two items could enter in the same instant on top of each other.
+        if self.reservations_put:
+            return
         if self.items:
             if len(self.reservations_put) + len(self.items) +len(self.ready_items) < self.capacity:
               
